@@ -199,6 +199,9 @@ class SymInputs:
     def bv(self, name, width=16):
         return self.eng.bitvec(name, width)
 
+    def f64(self, name):
+        return self.eng.f64(name)
+
     def int_is(self, name, k):
         """Is the symbolic integer input `name` equal to k?  (forks; used for crash indices)"""
         key = (name, int(k))
@@ -233,6 +236,12 @@ class ConcInputs:
     def bv(self, name, width=16):
         v = self.values.get(name, 0)
         return int(Fraction(v)) if isinstance(v, str) else int(v)
+
+    def f64(self, name):
+        v = self.values.get(name, 0)
+        if isinstance(v, str) and "0x" in v:
+            return np.float64(float.fromhex(v))
+        return np.float64(float(Fraction(v)) if isinstance(v, str) else float(v))
 
     def int_is(self, name, k):
         v = self.values.get(name, -1)
@@ -286,7 +295,14 @@ def leaf_to_json(v):
 def eval_leaf(v, subst):
     """Evaluate a symbolic leaf under a substitution list [(z3 var, z3 value)]."""
     import z3
-    from symx.values import SymBool, SymBV, SymReal
+    from symx.values import SymBool, SymBV, SymF64, SymReal
+    if isinstance(v, SymF64):
+        import struct
+        t = z3.simplify(z3.fpToIEEEBV(z3.substitute(v.t, *subst)))
+        if z3.is_bv_value(t):
+            f = struct.unpack(">d", t.as_long().to_bytes(8, "big"))[0]
+            return None if f != f else f
+        return "?"
     if isinstance(v, SymBV):
         t = z3.simplify(z3.substitute(v.t, *subst))
         return t.as_long() if z3.is_bv_value(t) else "?"
@@ -444,7 +460,11 @@ def _run_task_symbolic(modname, params, opts, t0):
                 trivial[0] += 1
             if len(sample_smt) < 2 and not z3.is_true(lg.truth(f)):
                 sample_smt.append({"claim": name, "negated_smt2": _short(z3.Not(lg.truth(f)).sexpr())})
-            eng.prove(name, f, slack_claim=cs[1], bound=1000, info={"sig": sig})
+            ext = c[3] if len(c) > 3 else None
+            if ext and ext.get("external"):
+                eng.prove_external(name, f, timeout_s=ext.get("timeout_s", 150), info={"sig": sig}, binary=ext["external"])
+            else:
+                eng.prove(name, f, slack_claim=cs[1], bound=1000, info={"sig": sig})
         if do_canary and hasattr(mod, "canaries"):
             for c, cs in zip(mod.canaries(params, inp, out, lg), mod.canaries(params, inp, out, lgs)):
                 canary_names.add(c[0])
@@ -525,6 +545,9 @@ def _predict(eng, paths, vec, assumptions, lg):
             subst.append((var, z3.BitVecVal(int(Fraction(vec.get(name, 0))), var.size())))
         elif z3.is_int(var):
             subst.append((var, z3.IntVal(int(Fraction(vec.get(name, -1))))))
+        elif z3.is_fp(var):
+            x = vec.get(name, 0)
+            subst.append((var, z3.FPVal(float.fromhex(x) if isinstance(x, str) and "0x" in x else float(Fraction(x)), z3.Float64())))
     for a in assumptions:
         t = z3.simplify(z3.substitute(lg.truth(a), *subst))
         if not z3.is_true(t):
@@ -635,7 +658,8 @@ if ans["exception"]:
 else:
     print("outputs :", json.dumps(ans["outputs"])[:4000])
     print("failed claims:", ans["failed"])
-hit = (CLAIM == "no-exception" and ans["exception"] is not None) or (CLAIM in ans["failed"])
+print("input assumptions hold:", ans["assumptions_ok"])
+hit = ((CLAIM == "no-exception" and ans["exception"] is not None) or (CLAIM in ans["failed"])) and ans["assumptions_ok"]
 print("REPRODUCED" if hit else "NOT REPRODUCED", "-", CLAIM)
 sys.exit(1 if hit else 0)
 '''
